@@ -30,6 +30,20 @@ Proof. exact parse_never_crashes. Qed.
 Corollary C15_total_closure : forall ap c k, parse_closure ap c <> PCrash k.
 Proof. intros ap c k. unfold parse_closure. destruct (closure_items c); [apply parse_never_crashes|discriminate]. Qed.
 
+(* a file without any section (an empty YAML document) defines nothing (bebb1a6; it used to end in AttributeError):
+   imported, the closure parses to the state of the other files; as the root, to the empty state; an error in
+   another file is still reported *)
+Definition empty_import_closure : closure :=
+  [mkFile [1; 2]%nat [IStruct "S1" (BFields [mkFd "a" "S0" None])];
+   mkFile [] [IStruct "S0" (BFields [mkFd "q" "uint16" (Some (CLit 3))])]; mkFile [] []].
+Example C15_empty_file_ex :
+  empty_file (mkFile [] []) = true /\
+  (exists st, parse_closure true empty_import_closure = POk st /\ map pd_name (ps_structs st) = ["S0"; "S1"] /\
+              map pd_size (ps_structs st) = [6; 6]) /\
+  parse_closure true [mkFile [] []] = POk ps_empty /\
+  parse_closure true [mkFile [1; 2]%nat []; mkFile [] [IAlias "A" "NOPE"]; mkFile [] []] = PReject RSyntax.
+Proof. split; [reflexivity|]. split; [eexists; repeat split; vm_compute; reflexivity|]. split; vm_compute; reflexivity. Qed.
+
 (* the two shapes that used to crash are accepted: `signed char`, and a field whose type is an alias of a struct *)
 Definition signed_char_items : list item :=
   [IAlias "SC" "signed char"; IStruct "S" (BFields [mkFd "a" "signed char" None; mkFd "b" "SC" (Some (CLit 3))])].
